@@ -149,7 +149,10 @@ func (its *list) Update(pos int, values ...interface{}) ([]interface{}, errors.O
 // Delete deletes one orderedType at index pos.
 func (its *list) Delete(pos int) (interface{}, errors.OrdaError) {
 	ret, err := its.DeleteMany(pos, 1)
-	return ret[0], err
+	if err != nil || len(ret) == 0 {
+		return nil, err
+	}
+	return ret[0], nil
 }
 
 // DeleteMany deletes the nodes at index pos in sequence.
